@@ -200,10 +200,21 @@ func shrink(p *gm.Program, hist []Step, async bool, fails failFn, budget int) (*
 				var qs []site
 				collectSites(&q.Body, true, &qs)
 				applyEdit(qs[si], e)
-				if try(q, hist) {
-					p = q
-					changed = true
-					break scan
+				// the simpler body may need fewer driver calls: also try it with one call removed
+				hs := [][]Step{hist}
+				lo := 0
+				if async {
+					lo = 1
+				}
+				for i := len(hist) - 1; i >= lo && len(hist) > 1; i-- {
+					hs = append(hs, append(append([]Step{}, hist[:i]...), hist[i+1:]...))
+				}
+				for _, h := range hs {
+					if try(q, h) {
+						p, hist = q, h
+						changed = true
+						break scan
+					}
 				}
 			}
 		}
